@@ -177,4 +177,15 @@ _tv("C21", "rank_to_average and last_observed_carried_forward: the helper's pipe
     "translation validation of helper pipelines against docstring references (z3); finite-domain enumeration for replicate_rows_query", "DESIGN.md §4 C21",
     "replicate_rows_query / def_multi_column_map are decided by enumeration on the real engines, not by the solver (log/ceil/string keys, record transforms).")
 
+_tv("C03", "The repository's PolarsModel (private copy of polars_model.py, eager and lazy) runs over a symbolic polars stand-in and the Pandas executor over the pandas "
+    "model on the same symbolic tables; on every structural path where the Polars run returns, z3 decides both tables are equal for all cell values; raising paths are "
+    "allowed. Attribute existence is delegated to the installed polars, so calls polars 1.44 rejects raise in the model as in the engine.",
+    "translation validation: symbolic execution of the real Polars executor over a polars model vs the real Pandas executor over the pandas model (z3 per-path equality)",
+    "DESIGN.md §4 C03", "The polars stand-in (vf/sym/plshim.py) is validated on each run's witnesses against real polars.")
+_tv("C17", "Enumerated control-table layouts x symbolic row-record data: rows->blocks vs a reference unpivot, blocks->rows of row/column-permuted conforming blocks vs the "
+    "original records, inverse round trip, Pandas == Polars, through the real RecordMap and both executors' record transforms over the models (z3 per-path equality); "
+    "compose() vs sequential application on example inputs.",
+    "translation validation of record transforms against a reference unpivot / the original records (z3), layouts enumerated, data symbolic", "DESIGN.md §4 C17",
+    "compose() is checked concretely on example inputs (it is built from example data).")
+
 NOT_YET = {}
